@@ -275,8 +275,13 @@ class Lists(Part):
                         for k, m in enumerate(pop):
                             m.costs_signed = [float(k), float(-k), False]
                             arch.add(m)
+                        # membership in the archive is membership of the DESIGN POINT: the probe may carry the costs of another member, or none
+                        probe.costs_signed = list(rng.choice(pop).costs_signed) if rng.random() < 0.5 else []
+                        inside = probe in arch
                         found = arch.remove(probe)
                         pop[:] = list(arch)
+                        if bool(inside) != bool(found):
+                            raise AssertionError("'probe in archive' is %s but Archive.remove(probe) reports %s" % (bool(inside), bool(found)))
                         return bool(found)
                     try:
                         pop.remove(probe)
